@@ -102,7 +102,7 @@ KNOWN_FNS: dict[Callable, sympy.Expr] = {
     math.pow: sympy.Pow,
     math.prod: sympy.prod,
     math.radians: sympy.rad,
-    math.remainder: sympy.rem,
+    # math.remainder: IEEE remainder, sympy.rem is polynomial division
     math.sin: sympy.sin,
     math.sinh: sympy.sinh,
     math.sqrt: sympy.sqrt,
@@ -138,17 +138,17 @@ KNOWN_FNS: dict[Callable, sympy.Expr] = {
     np.exp: sympy.exp,
     np.floor: sympy.floor,
     np.gcd: sympy.gcd,
-    np.greater: sympy.GreaterThan,
+    np.greater: sympy.StrictGreaterThan,
     np.greater_equal: sympy.Ge,
-    np.invert: sympy.invert,
+    # np.invert: bitwise not, sympy.invert is the modular inverse
     np.lcm: sympy.lcm,
-    np.less: sympy.LessThan,
+    np.less: sympy.StrictLessThan,
     np.less_equal: sympy.Le,
     np.log: sympy.log,
-    np.maximum: sympy.maximum,
-    np.minimum: sympy.minimum,
+    np.maximum: sympy.Max,
+    np.minimum: sympy.Min,
     np.mod: sympy.Mod,
-    np.positive: sympy.Abs,
+    # np.positive: identity (+x), not the absolute value
     np.power: sympy.Pow,
     np.sign: sympy.sign,
     np.sin: sympy.sin,
